@@ -251,10 +251,17 @@ pub fn to_dlt(i: usize, g: &GenMsg) -> DltMessage {
 
 /// seeded log: strictly increasing times, several ECUs/APIDs/CTIDs, distinct payload texts
 pub fn gen_log(rng: &mut Rng, n: usize, ecus: &[&str], apids: &[&str], ctids: &[&str]) -> Vec<GenMsg> {
+    gen_log_dt(rng, n, ecus, apids, ctids, 1, 5)
+}
+
+/// like gen_log with time steps of dt_lo..=dt_hi ms. The lifecycle detection holds messages back until the
+/// timestamps of every ECU span more than 60 s; with steps of some 100 ms the later part of a log streams through
+/// as it is parsed (several arrival batches), the first part arrives as one burst.
+pub fn gen_log_dt(rng: &mut Rng, n: usize, ecus: &[&str], apids: &[&str], ctids: &[&str], dt_lo: u64, dt_hi: u64) -> Vec<GenMsg> {
     let mut t = 1000u64;
     (0..n)
         .map(|i| {
-            t += 1 + rng.below(5);
+            t += rng.range(dt_lo, dt_hi);
             GenMsg {
                 ecu: rng.pick(ecus).to_string(),
                 apid: rng.pick(apids).to_string(),
